@@ -19,6 +19,10 @@ C16 line-protocol driver.
                                                                             → `ok <hex>` | `panic` | `fuel`
   var <text> <n>                 `parseVariadic` on a token with that text and n import arguments
                                                                             → `no` | `yes <start> <end>`
+  bind <sites>                   site blocks `http://h<i>.test:8080 { bind … }` through the whole adapter: the
+                                 servers' listen / listen_protocols / sites.  <sites> = site;site;…  site = `.` (no
+                                 bind) | bind,bind,…  bind = addr+addr/prot+prot (`-` = no protocols block)
+                                                                            → `L=a,b P=<none|h1+h2,-> B=0,1|…` one per server
   perm <text> <seed>             \
   eqv <textA> <textB>             | oracle only, no model answer            → `oracle-only`
   leak <textP> <textT>           /
@@ -33,6 +37,7 @@ import CaddyModel.C16.LexProps
 import CaddyModel.C16.History
 import CaddyModel.C16.Args
 import CaddyModel.C16.ParseGlue
+import CaddyModel.C16.BindGlue
 
 namespace CaddyModel.C16
 
@@ -180,7 +185,36 @@ def showEnvRes : EnvRes → String
   | .panic => "panic"
   | .fuel => "fuel"
 
+/-! `bind` -/
+
+def bindAddrOK (a : String) : Bool := !a.isEmpty && a.toList.all fun c => ('0' ≤ c && c ≤ '9') || c == '.'
+def bindProtOK (p : String) : Bool := p == "h1" || p == "h2" || p == "h3"
+
+def parseBind (s : String) : Option BindVal :=
+  match s.splitOn "/" with
+  | [as, ps] =>
+    if (as.splitOn "+").all bindAddrOK && (ps == "-" || (ps.splitOn "+").all bindProtOK) then
+      some ⟨as.splitOn "+", if ps == "-" then [] else ps.splitOn "+"⟩
+    else none
+  | _ => none
+
+def parseBSites (s : String) : Option (List BSite) :=
+  ((s.splitOn ";").zip (List.range (s.splitOn ";").length)).mapM fun (t, i) =>
+    if t == "." then some ⟨"h" ++ toString i ++ ".test", []⟩
+    else ((t.splitOn ",").mapM parseBind).map fun bs => ⟨"h" ++ toString i ++ ".test", bs⟩
+
+def showLP : Option (List (Option (List String))) → String
+  | none => "none"
+  | some l => ",".intercalate (l.map fun | none => "-" | some ps => "+".intercalate ps)
+
+def showBServer (b : BServer) : String :=
+  "L=" ++ ",".intercalate b.listen ++ " P=" ++ showLP b.listenProtocols ++ " B=" ++ ",".intercalate (b.blocks.map toString)
+
 def handle : List String → String
+  | ["bind", sites] =>
+    match parseBSites sites with
+    | some ss => if ss.length ≤ 10 then "|".intercalate ((serversOf "8080" ss).map showBServer) else "bad-op"
+    | none => "bad-op"
   | ["env", inp, table] =>
     match hexField inp, parseEnvTable table with
     | some i, some t => showEnvRes (replaceEnvVars (envOfTable t) i)
